@@ -36,7 +36,7 @@ PROPS = {
             "penalty_le_90pct", "split_accounted", "split_all_to_collector_when_no_active_farm",
             "split_all_to_collector_when_share_rounds_to_zero", "owner_share_is_half",
         ],
-        "streams": {"farmmath": (6000, 300000)},
+        "streams": {"farmmath": (6000, 300000), "fm_hist": (60, 3000)},
         "what": "emergency penalty rate = min(90%, base (x) remaining/duration (x) weight/amount) with 18-digit floors; <= 90% (from the "
                 "generated MAX_PENALTY_CAP); antitone in time after closing; zero once unlocked; fee = floor(amount*rate) < amount and <= 90%; "
                 "owner payout + fee collector + n*per-owner share <= recorded amount, = amount - dust with dust < n; all to the fee collector "
@@ -49,9 +49,51 @@ PROPS = {
             "weightMultiplier_eq", "mulOf_mono", "mulOf_year_le_16", "calculateWeight_ok", "weight_ge_amount",
             "weight_le_16x", "weight_mono_amount", "weight_mono_duration", "weight_superadditive", "curve_anchor_points",
         ],
-        "streams": {"farmmath": (6000, 300000)},
+        "streams": {"farmmath": (6000, 300000), "fm_hist": (60, 3000)},
         "what": "weight curve: weight >= amount, <= 16*amount (multiplier at one year evaluated from the generated coefficients), "
                 "monotone in amount and duration, super-additive in amount (source of F-07)",
+    },
+
+    "C03": {
+        "module": "MantraDex.Properties.C03", "ns": "MantraDex.C03",
+        "theorems": ["cp_gross_formula", "cp_swap_k_mono", "performSwap_k_mono", "cp_round_trip_no_profit", "ss_swap_D_witness"],
+        "streams": {"swapmath": (4000, 200000), "pm_hist": (60, 3000)},
+        "what": "constant product: gross output = floor(Y*o/(X+o)); x*y never decreases through compute_swap / perform_swap for every reserve, "
+                "offer and fee setting incl. zero fees; a swap-and-swap-back round trip never returns more than was put in. Stableswap: the "
+                "statement is false for the code (F-03, output rounded up): ss_swap_D_witness proves the negation on a concrete input by kernel "
+                "evaluation; every observed swap is classified by the exact-invariant monitor (Spec/Invariant.lean)",
+        "assumptions": ["stableswap half is NOT proved: known finding F-03 (KNOWN-FINDING line), monitor class C03-ss-rounding; anything beyond that class is a violation"],
+    },
+    "C04": {
+        "module": "MantraDex.Properties.C04", "ns": "MantraDex.C04",
+        "theorems": ["fee_is_floor_share", "fee_never_more", "computeFees_ok", "net_is_gross_minus_fees", "computeSwap_split",
+                     "performSwap_ok", "swapHandler_messages", "routeHops_chain", "routeHops_fee_msgs"],
+        "streams": {"swapmath": (4000, 200000), "pm_hist": (60, 3000)},
+        "what": "each fee = floor(gross*share) (never more); receiver gets gross minus all fees; perform_swap adds the offer in full and removes "
+                "exactly net+protocol+burn from the ask reserve, nothing else changes; a direct swap emits exactly [send net to receiver][burn]"
+                "[send protocol fee to collector] (each only when non-zero); each route hop consumes exactly the previous hop's output; route fee "
+                "messages only burn or pay the fee collector",
+    },
+    "C12": {
+        "module": "MantraDex.Properties.C12", "ns": "MantraDex.C12",
+        "theorems": ["simulation_eq_swap", "performSwap_frame", "route_eq_simulation", "reverse_quote_plus_one_suffices_partial", "reverse_quote_witness"],
+        "streams": {"swapmath": (4000, 200000), "pm_hist": (60, 3000)},
+        "what": "Simulation = Swap on all amounts in any state (both pool types); a swap leaves every other pool untouched; executing a route over "
+                "pairwise distinct pools yields exactly the chained simulation on the initial state; reverse quote + 1 suffices for zero fees "
+                "(general statement false for large asks: F-09 witness proved by kernel evaluation)",
+        "assumptions": ["reverse quote with non-zero fees: known finding F-09 (short by up to ask*1e-18 units); proved only for zero fees"],
+    },
+    "C13": {
+        "module": "MantraDex.Properties.C13", "ns": "MantraDex.C13",
+        "theorems": ["default_and_cap", "max_slippage_accept_iff", "belief_accept_iff", "tolerance_monotone_swap", "tolerance_capped",
+                     "min_receive_enforced", "deposit_tolerance_above_one_refused", "cp_deposit_accept_iff", "tolerance_monotone_deposit",
+                     "cp_exact_proportion_accepted", "ss_exact_proportion_rejected_witness"],
+        "streams": {"swapmath": (4000, 200000), "mintmath": (4000, 200000), "pm_hist": (60, 3000)},
+        "what": "swap/route: accept iff slippage/(return+slippage) <= min(tolerance or 1%, 50%) (or, with a belief price, iff return >= expected or "
+                "short by <= tolerance); monotone in the tolerance; > 50% capped; routes deliver >= minimum_receive or fail; constant-product deposit: "
+                "accept iff both deposit ratios*(1-tol) <= pool ratios, monotone, exact proportion always accepted, tolerance > 1 refused. "
+                "Stableswap deposit tolerance rejects exact-proportion deposits: F-11 witness (kernel evaluation)",
+        "assumptions": ["stableswap deposit tolerance: known finding F-11"],
     },
 }
 
